@@ -300,4 +300,19 @@ ITEMS = location_types() + budget_types() + error_types() + [
                     _ => false },
               Err(_) => true }''')],
         canaries=['C06:float_is_parsed_from_exactly_the_scalar_text_with_its_tag_and_the_angle_option_as_configured']),
+    # ---- byte-slice entry points are the string entry points on valid UTF-8 and an error otherwise (C09) ----
+    dict(src='src/lib.rs', path='fn from_slice_with_options', props=['C09', 'C01'],
+         pre_rewrites=[(r"pub fn from_slice_with_options<'de, T>\(bytes: &'de \[u8\], options: Options\) -> Result<T, Error>\s*where\s*T: serde::Deserialize<'de>,",
+                        'fn from_slice_with_options(bytes: &[u8], options: Options) -> Result<TargetVal, Error>', 1, 'R9')],
+         rewrites=[(r'std::str::from_utf8\(bytes\)\.map_err\(\|_e\| Error::InvalidUtf8Input\)\?', '(match ty_str_from_utf8(bytes) { Ok(__v) => __v, Err(_e) => { return Err(Error::InvalidUtf8Input); } })', 1, 'R18')],
+         ensures=[('C09:a_byte_slice_is_read_exactly_like_the_string_it_encodes_and_invalid_utf8_is_an_error',
+                   'r == (if valid_utf8(bytes@) { sp_from_str(bytes@, options) } else { Err::<TargetVal, Error>(Error::InvalidUtf8Input) })')],
+         canaries=['C09:a_byte_slice_is_read_exactly_like_the_string_it_encodes_and_invalid_utf8_is_an_error']),
+    dict(src='src/lib.rs', path='fn from_slice_multiple_with_options', props=['C09', 'C01'],
+         pre_rewrites=[(r"pub fn from_slice_multiple_with_options<T: DeserializeOwned>\(\s*bytes: &\[u8\],\s*options: Options,\s*\) -> Result<Vec<T>, Error>",
+                        'fn from_slice_multiple_with_options(bytes: &[u8], options: Options) -> Result<TargetVec, Error>', 1, 'R9')],
+         rewrites=[(r'std::str::from_utf8\(bytes\)\.map_err\(\|_e\| Error::InvalidUtf8Input\)\?', '(match ty_str_from_utf8(bytes) { Ok(__v) => __v, Err(_e) => { return Err(Error::InvalidUtf8Input); } })', 1, 'R18')],
+         ensures=[('C09:a_byte_slice_is_read_exactly_like_the_string_it_encodes_and_invalid_utf8_is_an_error',
+                   'r == (if valid_utf8(bytes@) { sp_from_multiple(bytes@, options) } else { Err::<TargetVec, Error>(Error::InvalidUtf8Input) })')],
+         canaries=['C09:a_byte_slice_is_read_exactly_like_the_string_it_encodes_and_invalid_utf8_is_an_error']),
 ]
